@@ -130,6 +130,7 @@ func derefT(t types.Type) types.Type {
 
 // the spellings of "the text after the last ':'" and of the position it is cut at
 var afterLastColon = regexp.MustCompile(`^(\$0\[\(strings\.LastIndex(Byte)?\(\$0,(":"|58)\) \+ 1\):\]|strings\.Split\(\$0,":"\)\[\(len\(strings\.Split\(\$0,":"\)\) - 1\)\])$`)
+var afterLastColonOfParam = regexp.MustCompile(`^\$\d\[\(strings\.LastIndex(Byte)?\(\$\d,(":"|58)\) \+ 1\):\]$`)
 var lastColon = regexp.MustCompile(`^strings\.LastIndex(Byte)?\(\$0,(":"|58)\)$`)
 
 func runC08(c *Ctx) {
@@ -451,6 +452,8 @@ func runC08(c *Ctx) {
 	// ---- P3 sidetree client builders
 	const pST = "vdr/sidetreelongform/sidetree"
 	grv := c.Fn("commitment", "GetRevealValue")
+	c.inlineHelpers = true
+	defer func() { c.inlineHelpers = false }()
 	// the options parameter is found by its type (…/option/<kind>.Opts), the multihash code is the options' own
 	// MultiHashAlgorithm — read in the builder, or handed to it by every caller as a separate argument
 	var optsOfD func(f *ssa.Function, d int) (string, map[string]bool)
@@ -528,11 +531,13 @@ func runC08(c *Ctx) {
 		signerKey := "invoke<vdr/sidetreelongform/sidetree/api.Signer>.PublicKeyJWK[" + opts + ".Signer]()"
 		okRV := false
 		var rvPath string
-		for _, cl := range callsTo(f, grv) {
-			a0, a1 := c.Path(cl.Call.Args[0], nil), c.Path(cl.Call.Args[1], nil)
+		// (the call may sit in an unexported helper shared by the builders: values are rendered in the builder's frame,
+		// one-exit helpers inlined)
+		for _, tc := range c.treeCalls(f, nil, 0, func(cl *ssa.Call, env Env) bool { return cl.Call.StaticCallee() == grv }) {
+			a0, a1 := c.Path(tc.call.Call.Args[0], tc.env), c.Path(tc.call.Call.Args[1], tc.env)
 			if strings.HasSuffix(a0, ".PublicKeyJWK["+opts+".Signer]()") && a1 == "conv<uint>(hashing.GetMultihashCode("+opts+".OperationCommitment)#0)" {
 				okRV = true
-				rvPath = c.Path(cl, nil) + "#0"
+				rvPath = c.Path(tc.call, tc.env) + "#0"
 				signerKey = a0
 			}
 		}
@@ -540,14 +545,17 @@ func runC08(c *Ctx) {
 		it := c.NamedType(pClient, bd.info)
 		for _, a := range allocsOf(f, it) {
 			ft := c.fieldTable(a, nil)
-			ok := len(ft["RevealValue"]) == 1 && ft["RevealValue"][0] == rvPath && len(ft[bd.keyField]) == 1 && ft[bd.keyField][0] == signerKey && len(ft["Signer"]) == 1 && ft["Signer"][0] == opts+".Signer" && len(ft["DidSuffix"]) == 1 && strings.Contains(ft["DidSuffix"][0], "getUniqueSuffix(")
+			ok := len(ft["RevealValue"]) == 1 && ft["RevealValue"][0] == rvPath && len(ft[bd.keyField]) == 1 && ft[bd.keyField][0] == signerKey && len(ft["Signer"]) == 1 && ft["Signer"][0] == opts+".Signer" && len(ft["DidSuffix"]) == 1 && (strings.Contains(ft["DidSuffix"][0], "getUniqueSuffix(") || afterLastColonOfParam.MatchString(ft["DidSuffix"][0]))
 			c.Check("C08.P3", bd.typ+":request-info", ok, a.Pos(), fmt.Sprintf("request info %v", ft))
 			if bd.typ == "update" {
 				okN := len(ft["UpdateCommitment"]) == 1 && commitmentOf(ft["UpdateCommitment"][0], opts, "NextUpdatePublicKey", mh)
 				c.Check("C08.P3", "update:next-commitment", okN, a.Pos(), fmt.Sprintf("next update commitment = %v", ft["UpdateCommitment"]))
 			}
 			if bd.typ == "recover" {
-				okN := len(ft["RecoveryCommitment"]) == 1 && strings.HasSuffix(ft["RecoveryCommitment"][0], "#0") && len(ft["UpdateCommitment"]) == 1 && strings.HasSuffix(ft["UpdateCommitment"][0], "#1")
+				// the two next commitments, each from its own next key (computed here or in a helper that was rendered inline)
+				okN := len(ft["RecoveryCommitment"]) == 1 && len(ft["UpdateCommitment"]) == 1 &&
+					((commitmentOf(ft["RecoveryCommitment"][0], opts, "NextRecoveryPublicKey", mh) && commitmentOf(ft["UpdateCommitment"][0], opts, "NextUpdatePublicKey", mh)) ||
+						(strings.HasSuffix(ft["RecoveryCommitment"][0], "#0") && strings.HasSuffix(ft["UpdateCommitment"][0], "#1") && c.Fn(pST, "getCommitment") != nil))
 				c.Check("C08.P3", "recover:next-commitments", okN, a.Pos(), fmt.Sprintf("next commitments = %v / %v", ft["RecoveryCommitment"], ft["UpdateCommitment"]))
 			}
 		}
@@ -656,7 +664,7 @@ func runC08(c *Ctx) {
 	} else {
 		c.Unresolved("C08.P3", "doc.populateRawPublicKey")
 	}
-	c.Min("C08.P3", 9+4)
+	c.Min("C08.P3", 9+3)
 
 	// ---- O1 remove-before-add
 	cup := c.Fn(pST, "createUpdatePatches")
